@@ -79,6 +79,9 @@ pub struct Rec {
     pub classes: BTreeMap<String, u64>,
     pub samples: Vec<Value>,
     pub extra_evals: u64,
+    /// non-trivial cases of an enumeration whose index->case map is
+    /// injective (distinct by construction, counted instead of hashed)
+    pub nontrivial_counted: u64,
     sample_budget: usize,
     /// When true the recorder ignores everything (used while shrinking).
     pub muted: bool,
@@ -104,6 +107,12 @@ impl Rec {
     pub fn nontrivial(&mut self, h: u64) {
         if !self.muted {
             self.nontrivial.insert(h);
+        }
+    }
+    #[inline]
+    pub fn nontrivial_by_construction(&mut self) {
+        if !self.muted {
+            self.nontrivial_counted += 1;
         }
     }
     #[inline]
@@ -151,6 +160,7 @@ pub struct Engine {
     pub strict: bool,
     start: Instant,
     evaluations: AtomicU64,
+    nontrivial_counted: AtomicU64,
     nontrivial: Mutex<HashSet<u64>>,
     classes: Mutex<BTreeMap<String, u64>>,
     samples: Mutex<Vec<Value>>,
@@ -342,6 +352,7 @@ impl Engine {
             strict: false,
             start: Instant::now(),
             evaluations: AtomicU64::new(0),
+            nontrivial_counted: AtomicU64::new(0),
             nontrivial: Mutex::new(HashSet::new()),
             classes: Mutex::new(BTreeMap::new()),
             samples: Mutex::new(vec![]),
@@ -400,6 +411,7 @@ impl Engine {
 
     fn merge(&self, rec: Rec, sub: &str) {
         self.evaluations.fetch_add(rec.evaluations, Ordering::SeqCst);
+        self.nontrivial_counted.fetch_add(rec.nontrivial_counted, Ordering::SeqCst);
         self.nontrivial.lock().unwrap().extend(rec.nontrivial);
         {
             let mut c = self.classes.lock().unwrap();
@@ -684,9 +696,16 @@ impl Engine {
         let mut coverage = serde_json::Map::new();
         let evals = self.evaluations.load(Ordering::SeqCst);
         coverage.insert("evaluations".into(), json!(evals));
+        let distinct = self.nontrivial.lock().unwrap().len() as u64
+            + self.nontrivial_counted.load(Ordering::SeqCst);
+        coverage.insert("distinct_nontrivial".into(), json!(distinct));
         coverage.insert(
-            "distinct_nontrivial".into(),
+            "distinct_nontrivial_hashed".into(),
             json!(self.nontrivial.lock().unwrap().len()),
+        );
+        coverage.insert(
+            "distinct_nontrivial_by_construction".into(),
+            json!(self.nontrivial_counted.load(Ordering::SeqCst)),
         );
         coverage.insert("rule".into(), json!(*self.rule.lock().unwrap()));
         coverage.insert(
@@ -737,7 +756,7 @@ impl Engine {
             self.tier.name(),
             self.seed,
             evals,
-            self.nontrivial.lock().unwrap().len(),
+            distinct,
             n_viol,
             n_known,
             wall
